@@ -167,10 +167,20 @@ package reflect
 //@ axiom wfSD_req: forall sd *structDesc, i int :: {wfSD(sd), sd.requiredFieldIDs[i]} wfSD(sd) && 0 <= i && i < len(sd.requiredFieldIDs)
 //@     ==> sd.requiredFieldIDs[i] <= sd.maxID && sd.fieldIdx[sd.requiredFieldIDs[i]] >= 0
 
+// precomputed size parts (desc.go fromDefsFields): fixedLenFieldSize sums header+width of the fields
+// whose size the type alone determines (fixedF), varLenFields lists the others in field order
+//@ spec rec func fixedF(f *tField) bool = !f.Type.IsPointer && f.Spec != defs.Optional && f.Type.FixedSize > 0
+//@ spec rec func FIXS(sd *structDesc, k Int) Int = k <= 0 ? 0 : FIXS(sd, k-1) + (fixedF(sd.fields[k-1]) ? 3 + sd.fields[k-1].Type.FixedSize : 0)
+//@ spec rec func nvar(sd *structDesc, k Int) Int = k <= 0 ? 0 : nvar(sd, k-1) + (fixedF(sd.fields[k-1]) ? 0 : 1)
+//@ axiom wfSD_sizes: forall sd *structDesc :: {wfSD(sd), sd.fixedLenFieldSize} wfSD(sd) ==> sd.fixedLenFieldSize == FIXS(sd, len(sd.fields)) && len(sd.varLenFields) == nvar(sd, len(sd.fields))
+//@ axiom wfSD_var: forall sd *structDesc, k int :: {wfSD(sd), nvar(sd, k)} wfSD(sd) && 0 <= k && k < len(sd.fields) && !fixedF(sd.fields[k]) ==> sd.varLenFields[nvar(sd, k)] == k
+//@ axiom wfSD_varidx: forall sd *structDesc, j int :: {wfSD(sd), sd.varLenFields[j]} wfSD(sd) && 0 <= j && j < len(sd.varLenFields) ==> 0 <= sd.varLenFields[j] && sd.varLenFields[j] < len(sd.fields)
+
 //@ axiom wfF_base: forall f *tField :: {wfF(f)} wfF(f) ==> f != nil && f.Type != nil && wfT(f.Type) && f.Offset <= MAXELEM
 //@     && (f.NoCopy ==> f.Type.WT == tSTRING)
 //@     && (f.CanSkipIfDefault ==> f.Default != nil && !f.Type.IsPointer)
 //@     && (f.Type.IsPointer && f.Type.T != tSTRUCT ==> f.CanSkipEncodeIfNil)
+//@     && ((f.CanSkipIfDefault || f.CanSkipEncodeIfNil) ==> f.Spec == defs.Optional)
 
 // ---------------------------------------------------------------------------
 // bitset.go : presence set for field ids 0..65535
@@ -496,8 +506,23 @@ package reflect
 //@   modifies $brk, $encp
 //@   after appendStruct ghost $encp = p
 //@   ensures c02_top: err == nil ==> r == WS(sdFor(rvOf(v)), M, $encp, b)
+//@   ensures c04_len: err == nil ==> slen(r) == slen(b) + SZS(sdFor(rvOf(v)), M, $encp)
 //@   ensures c02_ptr: err == nil && rvKind(rvOf(v)) != reflect.Struct ==> $encp == anyPtr(v)
 //@   ensures c02_copy: err == nil && rvKind(rvOf(v)) == reflect.Struct ==> forall a Int :: {M[a]} $encp <= a && a < $encp + anySize(v) ==> M[a] == sel(old(M), a - $encp + anyPtr(v))
+//@   ensures c16_value: forall a Int :: {M[a]} a < old($brk) ==> M[a] == old(M[a])
+
+// EncodedSize: the size walk over the struct the argument designates (same addressing as Append);
+// it panics exactly when the descriptor cannot be built or a nested size function fails.
+//@ const ghost $szerr = Int
+//@ func EncodedSize(v any) (n int)
+//@   modifies $brk, $encp, $szerr
+//@   entry ghost $szerr = 0
+//@   after createStructDesc ghost $szerr = res_err
+//@   after EncodedSize ghost $encp = p
+//@   after EncodedSize ghost $szerr = res_err
+//@   panics when $szerr != nil
+//@   ensures c04_top: n == SZS(sdFor(rvOf(v)), M, $encp)
+//@   ensures c04_ptr: rvKind(rvOf(v)) != reflect.Struct ==> $encp == anyPtr(v)
 //@   ensures c16_value: forall a Int :: {M[a]} a < old($brk) ==> M[a] == old(M[a])
 
 // ===========================================================================
@@ -554,8 +579,8 @@ package reflect
 //@ spec rec func WM(t *tType, m Mem, mm Int, j Int, s BSeq) BSeq = j <= 0 ? s : Wslot(t.V, m, entryV(mm, j-1), Wslot(t.K, m, entryK(mm, j-1), WM(t, m, mm, j-1, s)))
 
 // a field is omitted iff it is optional and nil (pointer/binary/container) or equal to its declared default
-//@ spec func fskip(f *tField, m Mem, b Int) bool = (f.CanSkipEncodeIfNil && ld64(m, b + f.Offset) == 0) || (f.CanSkipIfDefault && eqv(f.Type, m, f.Default, b + f.Offset))
-//@ spec func eqv(t *tType, m Mem, p0 Int, p1 Int) bool =
+//@ spec rec func fskip(f *tField, m Mem, b Int) bool = (f.CanSkipEncodeIfNil && ld64(m, b + f.Offset) == 0) || (f.CanSkipIfDefault && eqv(f.Type, m, f.Default, b + f.Offset))
+//@ spec rec func eqv(t *tType, m Mem, p0 Int, p1 Int) bool =
 //@     t.T == tBOOL ? ((m[p0] != 0) <==> (m[p1] != 0)) :
 //@     t.T == tBYTE ? m[p0] == m[p1] :
 //@     t.T == tDOUBLE ? feq(ld64(m, p0), ld64(m, p1)) :
@@ -577,6 +602,29 @@ package reflect
 //@   requires sd != nil && f != nil && sd.rt != nil
 //@   modifies nothing
 //@   ensures r != nil
+
+// Length of the wire form: the mirror of W in Int. Every writer is proved to extend its
+// accumulator by exactly SZ bytes (c04_len), every size function to return SZ (c04_exact).
+//@ spec rec func SZ(t *tType, m Mem, p Int) Int =
+//@     (t.T == tBOOL || t.T == tBYTE) ? 1 :
+//@     t.T == tI16 ? 2 :
+//@     (t.T == tI32 || t.T == tENUM) ? 4 :
+//@     (t.T == tI64 || t.T == tDOUBLE) ? 8 :
+//@     t.T == tSTRING ? 4 + sgn64(ld64(m, p + 8)) :
+//@     t.T == tSTRUCT ? SZS(t.Sd, m, p) :
+//@     (t.T == tLIST || t.T == tSET) ? 5 + SZL(t.V, m, ld64(m, p), lcount(m, p)) :
+//@     6 + SZM(t, m, ld64(m, p), mcount(m, p))
+//@ spec func SZslot(t *tType, m Mem, q Int) Int = t.IsPointer ? SZ(t, m, ld64(m, q)) : SZ(t, m, q)
+//@ spec rec func SZS(sd *structDesc, m Mem, b Int) Int = b == 0 ? 1 : SZF(sd, m, b, len(sd.fields)) + SZunk(sd, m, b) + 1
+//@ spec rec func fsize(f *tField, m Mem, b Int) Int = fskip(f, m, b) ? 0 : 3 + SZslot(f.Type, m, b + f.Offset)
+//@ spec rec func SZF(sd *structDesc, m Mem, b Int, k Int) Int = k <= 0 ? 0 : SZF(sd, m, b, k-1) + fsize(sd.fields[k-1], m, b)
+//@ spec func SZunk(sd *structDesc, m Mem, b Int) Int = (sd.hasUnknownFields && sgn64(ld64(m, b + sd.unknownFieldsOffset + 8)) > 0) ? sgn64(ld64(m, b + sd.unknownFieldsOffset + 8)) : 0
+//@ spec rec func SZL(t *tType, m Mem, d Int, j Int) Int = j <= 0 ? 0 : SZslot(t, m, d) + SZL(t, m, d + t.Size, j - 1)
+//@ spec rec func SZM(t *tType, m Mem, mm Int, j Int) Int = j <= 0 ? 0 : SZM(t, m, mm, j-1) + SZslot(t.K, m, entryK(mm, j-1)) + SZslot(t.V, m, entryV(mm, j-1))
+//@ lemma SZ_map: forall t *tType, m Mem, p Int :: {SZ(t, m, p)} t.T == tMAP ==> SZ(t, m, p) == 6 + SZM(t, m, ld64(m, p), mcount(m, p))
+//@ lemma SZ_list: forall t *tType, m Mem, p Int :: {SZ(t, m, p)} (t.T == tLIST || t.T == tSET) ==> SZ(t, m, p) == 5 + SZL(t.V, m, ld64(m, p), lcount(m, p))
+//@ lemma SZ_string: forall t *tType, m Mem, p Int :: {SZ(t, m, p)} t.T == tSTRING ==> SZ(t, m, p) == 4 + sgn64(ld64(m, p + 8))
+//@ lemma SZ_struct: forall t *tType, m Mem, p Int :: {SZ(t, m, p)} t.T == tSTRUCT ==> SZ(t, m, p) == SZS(t.Sd, m, p)
 
 // --- leaf writers / headers -------------------------------------------------
 
@@ -614,21 +662,26 @@ package reflect
 //@   requires wfT(t) && !t.SimpleType && (t.T == tSTRUCT || p != nil)
 //@   modifies nothing
 //@   ensures c02_value: err == nil ==> r == W(t, M, p, b)
+//@   ensures c04_len: err == nil ==> slen(r) == slen(b) + SZ(t, M, p)
 
 //@ func appendAny(t *tType, b []byte, p unsafe.Pointer) (r []byte, err error)
 //@   abstract b, r
 //@   requires wfT(t) && p != nil && (t.IsPointer && t.T != tSTRUCT ==> ld64(p) != 0)
 //@   modifies nothing
 //@   ensures c02_value: err == nil ==> r == Wslot(t, M, p, b)
+//@   ensures c04_len: err == nil ==> slen(r) == slen(b) + SZslot(t, M, p)
 
 //@ func appendStruct(t *tType, b []byte, base unsafe.Pointer) (r []byte, err error)
 //@   abstract b, r
 //@   requires c02_row: t != nil && wfSD(t.Sd)
 //@   modifies nothing
 //@   ensures c02_value: err == nil ==> r == WS(t.Sd, M, base, b)
+//@   ensures c04_len: err == nil ==> slen(r) == slen(b) + SZS(t.Sd, M, base)
 //@   loop 0 invariant c02_fields: b == WF(sd, M, base, rangeindex + 1, old(b))
+//@   loop 0 invariant c04_fields: slen(b) == slen(old(b)) + SZF(sd, M, base, rangeindex + 1)
 //@   loop 0 hint c02_skipped: fskip(f, M, base) ==> b == head(b)
 //@   loop 0 hint c02_written: !fskip(f, M, base) ==> b == Wslot(f.Type, M, base + f.Offset, W_fhdr(head(b), f.Type.WT, f.ID))
+//@   loop 0 hint c04_step: slen(b) == slen(head(b)) + fsize(f, M, base)
 
 // --- list fast paths ----------------------------------------------------------
 //@ func appendList_I08(t *tType, b []byte, p unsafe.Pointer) (r []byte, err error)
@@ -638,9 +691,13 @@ package reflect
 //@   requires p != nil
 //@   modifies nothing
 //@   ensures c02_value: err == nil && r == W(t, M, p, b)
+//@   ensures c04_len: err == nil ==> slen(r) == slen(b) + SZ(t, M, p)
 //@   loop 0 invariant c02_elems: vp != nil && i <= n && (i == 0 ==> WL(t, M, vp, n, b) == W(old(t), M, p, old(b))) && (i > 0 ==> WL(t, M, vp + t.Size, n - i, b) == W(old(t), M, p, old(b)))
+//@   loop 0 invariant c04_elems: (i == 0 ==> slen(b) + SZL(t, M, vp, n) == slen(old(b)) + SZ(old(t), M, p)) && (i > 0 ==> slen(b) + SZL(t, M, vp + t.Size, n - i) == slen(old(b)) + SZ(old(t), M, p))
 //@   loop 0 hint c02_step: b == Wslot(t, M, vp, head(b))
 //@   loop 0 hint c02_rest: WL(t, M, vp, n - head(i), head(b)) == W(old(t), M, p, old(b))
+//@   loop 0 hint c04_step: slen(b) == slen(head(b)) + SZslot(t, M, vp)
+//@   loop 0 hint c04_rest: slen(head(b)) + SZL(t, M, vp, n - head(i)) == slen(old(b)) + SZ(old(t), M, p)
 
 //@ func appendList_I16(t *tType, b []byte, p unsafe.Pointer) (r []byte, err error)
 //@   abstract b, r
@@ -649,9 +706,13 @@ package reflect
 //@   requires p != nil
 //@   modifies nothing
 //@   ensures c02_value: err == nil && r == W(t, M, p, b)
+//@   ensures c04_len: err == nil ==> slen(r) == slen(b) + SZ(t, M, p)
 //@   loop 0 invariant c02_elems: vp != nil && i <= n && (i == 0 ==> WL(t, M, vp, n, b) == W(old(t), M, p, old(b))) && (i > 0 ==> WL(t, M, vp + t.Size, n - i, b) == W(old(t), M, p, old(b)))
+//@   loop 0 invariant c04_elems: (i == 0 ==> slen(b) + SZL(t, M, vp, n) == slen(old(b)) + SZ(old(t), M, p)) && (i > 0 ==> slen(b) + SZL(t, M, vp + t.Size, n - i) == slen(old(b)) + SZ(old(t), M, p))
 //@   loop 0 hint c02_step: b == Wslot(t, M, vp, head(b))
 //@   loop 0 hint c02_rest: WL(t, M, vp, n - head(i), head(b)) == W(old(t), M, p, old(b))
+//@   loop 0 hint c04_step: slen(b) == slen(head(b)) + SZslot(t, M, vp)
+//@   loop 0 hint c04_rest: slen(head(b)) + SZL(t, M, vp, n - head(i)) == slen(old(b)) + SZ(old(t), M, p)
 
 //@ func appendList_I32(t *tType, b []byte, p unsafe.Pointer) (r []byte, err error)
 //@   abstract b, r
@@ -660,9 +721,13 @@ package reflect
 //@   requires p != nil
 //@   modifies nothing
 //@   ensures c02_value: err == nil && r == W(t, M, p, b)
+//@   ensures c04_len: err == nil ==> slen(r) == slen(b) + SZ(t, M, p)
 //@   loop 0 invariant c02_elems: vp != nil && i <= n && (i == 0 ==> WL(t, M, vp, n, b) == W(old(t), M, p, old(b))) && (i > 0 ==> WL(t, M, vp + t.Size, n - i, b) == W(old(t), M, p, old(b)))
+//@   loop 0 invariant c04_elems: (i == 0 ==> slen(b) + SZL(t, M, vp, n) == slen(old(b)) + SZ(old(t), M, p)) && (i > 0 ==> slen(b) + SZL(t, M, vp + t.Size, n - i) == slen(old(b)) + SZ(old(t), M, p))
 //@   loop 0 hint c02_step: b == Wslot(t, M, vp, head(b))
 //@   loop 0 hint c02_rest: WL(t, M, vp, n - head(i), head(b)) == W(old(t), M, p, old(b))
+//@   loop 0 hint c04_step: slen(b) == slen(head(b)) + SZslot(t, M, vp)
+//@   loop 0 hint c04_rest: slen(head(b)) + SZL(t, M, vp, n - head(i)) == slen(old(b)) + SZ(old(t), M, p)
 
 //@ func appendList_I64(t *tType, b []byte, p unsafe.Pointer) (r []byte, err error)
 //@   abstract b, r
@@ -671,9 +736,13 @@ package reflect
 //@   requires p != nil
 //@   modifies nothing
 //@   ensures c02_value: err == nil && r == W(t, M, p, b)
+//@   ensures c04_len: err == nil ==> slen(r) == slen(b) + SZ(t, M, p)
 //@   loop 0 invariant c02_elems: vp != nil && i <= n && (i == 0 ==> WL(t, M, vp, n, b) == W(old(t), M, p, old(b))) && (i > 0 ==> WL(t, M, vp + t.Size, n - i, b) == W(old(t), M, p, old(b)))
+//@   loop 0 invariant c04_elems: (i == 0 ==> slen(b) + SZL(t, M, vp, n) == slen(old(b)) + SZ(old(t), M, p)) && (i > 0 ==> slen(b) + SZL(t, M, vp + t.Size, n - i) == slen(old(b)) + SZ(old(t), M, p))
 //@   loop 0 hint c02_step: b == Wslot(t, M, vp, head(b))
 //@   loop 0 hint c02_rest: WL(t, M, vp, n - head(i), head(b)) == W(old(t), M, p, old(b))
+//@   loop 0 hint c04_step: slen(b) == slen(head(b)) + SZslot(t, M, vp)
+//@   loop 0 hint c04_rest: slen(head(b)) + SZL(t, M, vp, n - head(i)) == slen(old(b)) + SZ(old(t), M, p)
 
 //@ func appendList_ENUM(t *tType, b []byte, p unsafe.Pointer) (r []byte, err error)
 //@   abstract b, r
@@ -682,9 +751,13 @@ package reflect
 //@   requires p != nil
 //@   modifies nothing
 //@   ensures c02_value: err == nil && r == W(t, M, p, b)
+//@   ensures c04_len: err == nil ==> slen(r) == slen(b) + SZ(t, M, p)
 //@   loop 0 invariant c02_elems: vp != nil && i <= n && (i == 0 ==> WL(t, M, vp, n, b) == W(old(t), M, p, old(b))) && (i > 0 ==> WL(t, M, vp + t.Size, n - i, b) == W(old(t), M, p, old(b)))
+//@   loop 0 invariant c04_elems: (i == 0 ==> slen(b) + SZL(t, M, vp, n) == slen(old(b)) + SZ(old(t), M, p)) && (i > 0 ==> slen(b) + SZL(t, M, vp + t.Size, n - i) == slen(old(b)) + SZ(old(t), M, p))
 //@   loop 0 hint c02_step: b == Wslot(t, M, vp, head(b))
 //@   loop 0 hint c02_rest: WL(t, M, vp, n - head(i), head(b)) == W(old(t), M, p, old(b))
+//@   loop 0 hint c04_step: slen(b) == slen(head(b)) + SZslot(t, M, vp)
+//@   loop 0 hint c04_rest: slen(head(b)) + SZL(t, M, vp, n - head(i)) == slen(old(b)) + SZ(old(t), M, p)
 
 //@ func appendList_STRING(t *tType, b []byte, p unsafe.Pointer) (r []byte, err error)
 //@   abstract b, r
@@ -693,9 +766,13 @@ package reflect
 //@   requires p != nil
 //@   modifies nothing
 //@   ensures c02_value: err == nil && r == W(t, M, p, b)
+//@   ensures c04_len: err == nil ==> slen(r) == slen(b) + SZ(t, M, p)
 //@   loop 0 invariant c02_elems: vp != nil && i <= n && (i == 0 ==> WL(t, M, vp, n, b) == W(old(t), M, p, old(b))) && (i > 0 ==> WL(t, M, vp + t.Size, n - i, b) == W(old(t), M, p, old(b)))
+//@   loop 0 invariant c04_elems: (i == 0 ==> slen(b) + SZL(t, M, vp, n) == slen(old(b)) + SZ(old(t), M, p)) && (i > 0 ==> slen(b) + SZL(t, M, vp + t.Size, n - i) == slen(old(b)) + SZ(old(t), M, p))
 //@   loop 0 hint c02_step: b == Wslot(t, M, vp, head(b))
 //@   loop 0 hint c02_rest: WL(t, M, vp, n - head(i), head(b)) == W(old(t), M, p, old(b))
+//@   loop 0 hint c04_step: slen(b) == slen(head(b)) + SZslot(t, M, vp)
+//@   loop 0 hint c04_rest: slen(head(b)) + SZL(t, M, vp, n - head(i)) == slen(old(b)) + SZ(old(t), M, p)
 
 //@ func appendList_Other(t *tType, b []byte, p unsafe.Pointer) (r []byte, err error)
 //@   abstract b, r
@@ -704,9 +781,13 @@ package reflect
 //@   requires p != nil
 //@   modifies nothing
 //@   ensures c02_value: err == nil ==> r == W(t, M, p, b)
+//@   ensures c04_len: err == nil ==> slen(r) == slen(b) + SZ(t, M, p)
 //@   loop 0 invariant c02_elems: vp != nil && i <= n && (i == 0 ==> WL(t, M, vp, n, b) == W(old(t), M, p, old(b))) && (i > 0 ==> WL(t, M, vp + t.Size, n - i, b) == W(old(t), M, p, old(b)))
+//@   loop 0 invariant c04_elems: (i == 0 ==> slen(b) + SZL(t, M, vp, n) == slen(old(b)) + SZ(old(t), M, p)) && (i > 0 ==> slen(b) + SZL(t, M, vp + t.Size, n - i) == slen(old(b)) + SZ(old(t), M, p))
 //@   loop 0 hint c02_step: b == Wslot(t, M, vp, head(b))
 //@   loop 0 hint c02_rest: WL(t, M, vp, n - head(i), head(b)) == W(old(t), M, p, old(b))
+//@   loop 0 hint c04_step: slen(b) == slen(head(b)) + SZslot(t, M, vp)
+//@   loop 0 hint c04_rest: slen(head(b)) + SZL(t, M, vp, n - head(i)) == slen(old(b)) + SZ(old(t), M, p)
 
 //@ func appendListAny(t *tType, b []byte, p unsafe.Pointer) (r []byte, err error)
 //@   abstract b, r
@@ -715,9 +796,13 @@ package reflect
 //@   requires p != nil
 //@   modifies nothing
 //@   ensures c02_value: err == nil ==> r == W(t, M, p, b)
+//@   ensures c04_len: err == nil ==> slen(r) == slen(b) + SZ(t, M, p)
 //@   loop 0 invariant c02_elems: vp != nil && i <= n && (i == 0 ==> WL(t, M, vp, n, b) == W(old(t), M, p, old(b))) && (i > 0 ==> WL(t, M, vp + t.Size, n - i, b) == W(old(t), M, p, old(b)))
+//@   loop 0 invariant c04_elems: (i == 0 ==> slen(b) + SZL(t, M, vp, n) == slen(old(b)) + SZ(old(t), M, p)) && (i > 0 ==> slen(b) + SZL(t, M, vp + t.Size, n - i) == slen(old(b)) + SZ(old(t), M, p))
 //@   loop 0 hint c02_step: b == Wslot(t, M, vp, head(b))
 //@   loop 0 hint c02_rest: WL(t, M, vp, n - head(i), head(b)) == W(old(t), M, p, old(b))
+//@   loop 0 hint c04_step: slen(b) == slen(head(b)) + SZslot(t, M, vp)
+//@   loop 0 hint c04_rest: slen(head(b)) + SZL(t, M, vp, n - head(i)) == slen(old(b)) + SZ(old(t), M, p)
 
 // --- maps -----------------------------------------------------------------------
 // hack.go iterator (A-HACK, A-RANGE): abstract state of a wrapped reflect.MapIter value
@@ -746,9 +831,11 @@ package reflect
 //@   requires p != nil
 //@   modifies nothing
 //@   ensures c02_value: err == nil ==> r == W(t, M, p, b)
+//@   ensures c04_len: err == nil ==> slen(r) == slen(b) + SZ(t, M, p)
 //@   loop 0 invariant c02_iter: itMap(it) == ld64(p) && 0 <= itDone(it, kp) && itPos(it) <= nmaplen(ld64(p)) && (kp == nil ==> itPos(it) == nmaplen(ld64(p)))
 //@        && (kp != nil ==> itPos(it) >= 1 && kp == entryK(ld64(p), itPos(it) - 1) && vp == entryV(ld64(p), itPos(it) - 1) && vp != nil)
 //@   loop 0 invariant c02_entries: n == u32(mcount(M, p) - itDone(it, kp)) && b == WM(t, M, ld64(p), itDone(it, kp), W_mhdr(old(b), t.K.WT, t.V.WT, mcount(M, p)))
+//@   loop 0 invariant c04_entries: slen(b) == slen(old(b)) + 6 + SZM(t, M, ld64(p), itDone(it, kp))
 //@   loop 0 hint c02_step: b == Wslot(t.V, M, head(vp), Wslot(t.K, M, head(kp), head(b)))
 //@   loop 0 hint c02_pos: itDone(it, kp) == head(itDone(it, kp)) + 1 && head(kp) == entryK(ld64(p), head(itDone(it, kp))) && head(vp) == entryV(ld64(p), head(itDone(it, kp)))
 
@@ -786,8 +873,10 @@ package reflect
 //@   requires p != nil
 //@   modifies nothing
 //@   ensures c02_value: err == nil ==> r == W(t, M, p, b)
+//@   ensures c04_len: err == nil ==> slen(r) == slen(b) + SZ(t, M, p)
 //@   loop 0 invariant c02_iter: 0 <= $iter0 && $iter0 <= nmaplen(ld64(p)) && ld64(p) != 0
 //@   loop 0 invariant c02_entries: n == u32(mcount(M, p) - $iter0) && b == WM(t, M, ld64(p), $iter0, W_mhdr(old(b), t.K.WT, t.V.WT, mcount(M, p)))
+//@   loop 0 invariant c04_entries: slen(b) == slen(old(b)) + 6 + SZM(t, M, ld64(p), $iter0)
 
 // iterator-based fast paths (key or value goes through AppendFunc)
 //@ macro itinv = itMap(it) == ld64(p) && 0 <= itDone(it, kp) && itPos(it) <= nmaplen(ld64(p)) && (kp == nil ==> itPos(it) == nmaplen(ld64(p))) && (kp != nil ==> itPos(it) >= 1 && kp == entryK(ld64(p), itPos(it) - 1) && vp == entryV(ld64(p), itPos(it) - 1) && vp != nil)
@@ -802,8 +891,10 @@ package reflect
 //@   requires p != nil
 //@   modifies nothing
 //@   ensures c02_value: err == nil ==> r == W(t, M, p, b)
+//@   ensures c04_len: err == nil ==> slen(r) == slen(b) + SZ(t, M, p)
 //@   loop 0 invariant c02_iter: $(itinv)
 //@   loop 0 invariant c02_entries: $(itentries)
+//@   loop 0 invariant c04_entries: slen(b) == slen(old(b)) + 6 + SZM(t, M, ld64(p), itDone(it, kp))
 //@   loop 0 hint c02_step: $(itstep)
 //@   loop 0 hint c02_pos: $(itpos)
 
@@ -814,10 +905,77 @@ package reflect
 //@   requires p != nil
 //@   modifies nothing
 //@   ensures c02_value: err == nil ==> r == W(t, M, p, b)
+//@   ensures c04_len: err == nil ==> slen(r) == slen(b) + SZ(t, M, p)
 //@   loop 0 invariant c02_iter: $(itinv)
 //@   loop 0 invariant c02_entries: $(itentries)
+//@   loop 0 invariant c04_entries: slen(b) == slen(old(b)) + 6 + SZM(t, M, ld64(p), itDone(it, kp))
 //@   loop 0 hint c02_step: $(itstep)
 //@   loop 0 hint c02_pos: $(itpos)
+
+// --- the size walk (ttype.go) ---------------------------------------------------------
+// A-SIZE: containers hold fewer than 2^31 elements (the count written on the wire is the
+// 32-bit truncation of the live length, the size walk multiplies the full length).
+//@ spec rec func SZV(sd *structDesc, m Mem, b Int, j Int) Int = j <= 0 ? 0 : SZV(sd, m, b, j-1) + fsize(sd.fields[sd.varLenFields[j-1]], m, b)
+//@ lemma SZ_fixed: forall t *tType, m Mem, p Int :: {wfT(t), SZ(t, m, p)} wfT(t) && t.FixedSize > 0 ==> SZ(t, m, p) == t.FixedSize
+//@ lemma fsize_fixed: forall f *tField, m Mem, b Int :: {fsize(f, m, b)} wfF(f) && fixedF(f) ==> fsize(f, m, b) == 3 + f.Type.FixedSize
+//@ lemma nvar_bounds: forall sd *structDesc, k Int :: {nvar(sd, k)} 0 <= k ==> 0 <= nvar(sd, k) && nvar(sd, k) <= k
+//@   opt induction k
+//@ lemma SZF_partition: forall sd *structDesc, m Mem, b Int, k Int :: {SZF(sd, m, b, k), nvar(sd, k)} wfSD(sd) && 0 <= k && k <= len(sd.fields) ==> SZF(sd, m, b, k) == FIXS(sd, k) + SZV(sd, m, b, nvar(sd, k))
+//@   opt induction k
+//@ lemma SZL_fixed: forall t *tType, m Mem, d Int, j Int :: {SZL(t, m, d, j)} wfT(t) && t.FixedSize > 0 && !t.IsPointer && 0 <= j ==> SZL(t, m, d, j) == j * t.FixedSize
+//@   opt induction j
+
+//@ func encodedStringSize(p unsafe.Pointer) (n int)
+//@   opt mathint
+//@   requires p != nil
+//@   modifies nothing
+//@   ensures n == 4 + sgn64(ld64(p + 8))
+
+// calls through tType.EncodedSizeFunc (a method value bound to its own descriptor, A-WF)
+//@ dyn tType.EncodedSizeFunc(self *tType, p unsafe.Pointer) (n int, err error)
+//@   requires wfT(self) && !self.SimpleType && p != nil
+//@   modifies nothing
+//@   ensures c04_exact: err == nil ==> n == SZslot(self, M, p)
+
+//@ func (t *tType) EncodedSize(base unsafe.Pointer) (n int, err error)
+//@   opt mathint
+//@   requires t != nil && wfSD(t.Sd) && (t.T == 0 ==> !t.IsPointer) && (t.T != 0 ==> wfT(t) && t.T == tSTRUCT && base != nil)
+//@   modifies nothing
+//@   ensures c04_exact: err == nil ==> (t.T != 0 ==> n == SZslot(t, M, base)) && (t.T == 0 ==> n == SZS(t.Sd, M, base))
+//@   loop 0 invariant c04_var: ret == sd.fixedLenFieldSize + SZV(sd, M, base, rangeindex + 1)
+
+//@ func (t *tType) encodedListSize(p unsafe.Pointer) (n int, err error)
+//@   opt mathint
+//@   requires wfT(t) && (t.T == tLIST || t.T == tSET) && p != nil
+//@   requires c04_count: sgn64(ld64(p + 8)) >= 0 && sgn64(ld64(p + 8)) < 2147483648
+//@   modifies nothing
+//@   ensures c04_exact: err == nil ==> n == SZ(t, M, p)
+//@   loop 0 invariant c04_idx: 0 <= i && i <= h.Len && vt == t.V && ld64(p) != 0 && vp != nil && h == p
+//@   loop 0 invariant c04_first: i == 0 ==> vp == ld64(p) && ret + SZL(vt, M, vp, h.Len) == SZ(t, M, p)
+//@   loop 0 invariant c04_elems: i > 0 ==> ret + SZL(vt, M, vp + vt.Size, h.Len - i) == SZ(t, M, p)
+//@   loop 0 hint c04_step: ret == head(ret) + SZslot(vt, M, vp)
+//@   loop 0 hint c04_rest: head(ret) + SZL(vt, M, vp, h.Len - head(i)) == SZ(t, M, p)
+
+// map sizes: keys and values are summed separately (either part may use the count*width shortcut)
+//@ spec rec func SZMK(t *tType, m Mem, mm Int, j Int) Int = j <= 0 ? 0 : SZMK(t, m, mm, j-1) + SZslot(t.K, m, entryK(mm, j-1))
+//@ spec rec func SZMV(t *tType, m Mem, mm Int, j Int) Int = j <= 0 ? 0 : SZMV(t, m, mm, j-1) + SZslot(t.V, m, entryV(mm, j-1))
+//@ lemma SZM_split: forall t *tType, m Mem, mm Int, j Int :: {SZM(t, m, mm, j), SZMK(t, m, mm, j)} 0 <= j ==> SZM(t, m, mm, j) == SZMK(t, m, mm, j) + SZMV(t, m, mm, j)
+//@   opt induction j
+//@ lemma SZMK_fixed: forall t *tType, m Mem, mm Int, j Int :: {SZMK(t, m, mm, j)} wfT(t) && t.T == tMAP && t.K.FixedSize > 0 && 0 <= j ==> SZMK(t, m, mm, j) == j * t.K.FixedSize
+//@   opt induction j
+//@ lemma SZMV_fixed: forall t *tType, m Mem, mm Int, j Int :: {SZMV(t, m, mm, j)} wfT(t) && t.T == tMAP && t.V.FixedSize > 0 && 0 <= j ==> SZMV(t, m, mm, j) == j * t.V.FixedSize
+//@   opt induction j
+
+//@ func (t *tType) encodedMapSize(p unsafe.Pointer) (n int, err error)
+//@   opt mathint
+//@   requires wfT(t) && t.T == tMAP && p != nil
+//@   modifies nothing
+//@   ensures c04_split: SZMK(t, M, ld64(p), mcount(M, p)) + SZMV(t, M, ld64(p), mcount(M, p)) == SZM(t, M, ld64(p), mcount(M, p))
+//@   ensures c04_exact: err == nil ==> n == SZ(t, M, p)
+//@   loop 0 invariant c04_iter: $(itinv)
+//@   loop 0 invariant c04_entries: kt == t.K && vt == t.V && l == nmaplen(ld64(p)) && (doneK <==> kt.FixedSize > 0) && (doneV <==> vt.FixedSize > 0) && !(doneK && doneV)
+//@        && ret == 6 + (doneK ? l * kt.FixedSize : SZMK(t, M, ld64(p), itDone(it, kp))) + (doneV ? l * vt.FixedSize : SZMV(t, M, ld64(p), itDone(it, kp)))
+//@   loop 0 hint c04_pos: $(itpos)
 
 // --- registration and dispatch -------------------------------------------------------
 // premise under which a table is consulted (mirrors updateListAppendFunc / updateMapAppendFunc,
